@@ -418,7 +418,7 @@ def _ay_walk(prog, name, args, opaque=(), hook=None, max_paths=4000):
     AY = prog.adt_path("aym", "AymPrecise")
     w = Walker(prog, max_paths=max_paths)
     for o in opaque:
-        w.opaque_paths.add(prog.fn_path("aym", "AymPrecise::" + o))
+        w.opaque_paths.add(o if o in prog.fns else prog.fn_path("aym", "AymPrecise::" + o))
     w.effect_hook = hook or (lambda w_, st, path, a, d, wh: EffectResult(None, havoc=False))
     st = w.new_state()
     st.store[("h", "ay")] = w.materialise(SymObj("ay", ("adt", AY, ())), st)
@@ -428,6 +428,35 @@ def _ay_walk(prog, name, args, opaque=(), hook=None, max_paths=4000):
 
 def _eq(a, b):
     return isinstance(a, T) and (a is b or tm.equiv(a, b) is True)
+
+
+def tone_step(prog):
+    """(function path, 'chip' | 'channel'): the per-tick step of a tone generator, found by role — the one function
+    (constructors aside) that stores to ToneChannel.tone_counter — and how it is addressed: through the chip with a
+    channel index, or as a method of the channel"""
+    cg, fa = cc.scans(prog)
+    TC = prog.adt_path("aym", "ToneChannel")
+    AY = prog.adt_path("aym", "AymPrecise")
+    ws = sorted(set(cc.strip_closure(p) for p in fa.writers(TC, "tone_counter") if p.split("::")[-1] not in ("new", "default")))
+    if len(ws) != 1:
+        raise KeyError("anchor: the tone generator step is not one function: tone_counter is written by %s" % ws)
+    fn = prog.fn(ws[0])
+    t0 = fn.T[fn.body["locals"][1]]
+    inner = t0[2] if t0[0] in ("ref", "ptr") else t0
+    kind = "channel" if inner[0] == "adt" and inner[1] == TC else "chip" if inner[0] == "adt" and inner[1] == AY else None
+    if kind is None:
+        raise KeyError("anchor: the tone generator step %s takes neither the chip nor a channel" % ws[0])
+    return ws[0], kind
+
+
+def _tone_index(prog, kind, a):
+    """channel index of a call of the tone step"""
+    if kind == "chip":
+        return a[1].val if isinstance(a[1], T) and a[1].is_const() else None
+    r = a[0]
+    if isinstance(r, Ref) and r.proj and r.proj[-1][0] == "i":
+        return r.proj[-1][1]
+    return None
 
 
 def generators(chk, prog):
@@ -447,7 +476,17 @@ def generators(chk, prog):
     # ---- tone
     for i in range(3):
         key = "T-TABLE/AymPrecise::update_tone/%d" % i
-        w, rs = _ay_walk(prog, "update_tone", [K(i, 64)])
+        TSTEP, tkind = tone_step(prog)
+        if tkind == "chip":
+            w, rs = _ay_walk(prog, TSTEP.split("AymPrecise::")[-1], [K(i, 64)])
+        else:
+            w = Walker(prog, max_paths=4000)
+            w.effect_hook = lambda w_, st_, path, a_, d_, wh_: EffectResult(None, havoc=False)
+            st_ = w.new_state()
+            st_.store[("h", "ay")] = w.materialise(SymObj("ay", ("adt", AY, ())), st_)
+            chs = w.materialise(st_.store[("h", "ay")].fields[fa_("channels")], st_) if isinstance(st_.store[("h", "ay")].fields[fa_("channels")], SymObj) else st_.store[("h", "ay")].fields[fa_("channels")]
+            st_.store[("h", "ay")] = st_.store[("h", "ay")].with_field(fa_("channels"), chs)
+            rs = w.run(prog.fn(TSTEP), [Ref(("h", "ay"), (("f", fa_("channels")), ("i", i)), True)], genv={}, state=st_)
         if len(rs) != 2 or any(r.outcome != "return" for r in rs):
             chk.fail(key + "/paths", "update_tone: %s" % [(r.outcome, r.detail) for r in rs][:3])
             continue
@@ -544,18 +583,19 @@ def mixer(chk, prog):
     every value of the channel's bits, volume 0..15 and envelope 0..31 (16384 rows per channel and side)."""
     import numpy as np
     AY = prog.adt_path("aym", "AymPrecise")
-    gens = dict((prog.fn_path("aym", "AymPrecise::" + o), o) for o in ("update_tone", "update_noise", "update_envelope"))
+    TSTEP, tkind = tone_step(prog)
+    gens = dict((prog.fn_path("aym", "AymPrecise::" + o), o) for o in ("update_noise", "update_envelope"))
+    gens[TSTEP] = "update_tone"
 
     def hook(w_, st, path, a, d, wh):
         if path in gens:
             n = gens[path]
             if n == "update_tone":
-                if not (isinstance(a[1], T) and a[1].is_const()):
-                    return EffectResult(tm.sym("tone?", 64), havoc=False)
-                return EffectResult(tm.sym("tone%d" % a[1].val, 64), havoc=False)
+                ix = _tone_index(prog, tkind, a)
+                return EffectResult(tm.sym("tone?" if ix is None else "tone%d" % ix, 64), havoc=False)
             return EffectResult(tm.sym(n[7:], 64), havoc=False)
         return None
-    w, rs = _ay_walk(prog, "update_mixer", [], opaque=("update_tone", "update_noise", "update_envelope"), hook=hook)
+    w, rs = _ay_walk(prog, "update_mixer", [], opaque=("update_noise", "update_envelope", TSTEP), hook=hook)
     key = "T-TABLE/AymPrecise::update_mixer"
     good = [r for r in rs if r.outcome == "return"]
     other = [r for r in rs if r.outcome not in ("return", "panic")]
@@ -564,7 +604,7 @@ def mixer(chk, prog):
         return
     # every generator advanced exactly once per tick (tone: once per channel)
     for r in good:
-        calls = sorted(gens[e.path] + (str(e.args[1].val) if gens[e.path] == "update_tone" and isinstance(e.args[1], T) and e.args[1].is_const() else "")
+        calls = sorted(gens[e.path] + (str(_tone_index(prog, tkind, e.args)) if gens[e.path] == "update_tone" and _tone_index(prog, tkind, e.args) is not None else "")
                        for e in r.trace if e.path in gens)
         chk.check(calls == ["update_envelope", "update_noise", "update_tone0", "update_tone1", "update_tone2"], key + "/advance",
                   "one tick advances the generators %s; documented each exactly once" % calls)
